@@ -387,7 +387,7 @@ func finishCheck(prop, tierName string, tier, seed int, jobs []*job, tmp string,
 				fmt.Fprintf(os.Stderr, "INCONCLUSIVE: candidate for %s (%s) on an over-approximated path did not reproduce natively\n", j.v.Expect, j.v.Entry)
 				continue
 			}
-			fmt.Fprintf(os.Stderr, "ENGINE FAULT: counterexample candidate for %s (%s) did not reproduce natively: %s inputs=%s\n", j.v.Expect, j.v.Entry, j.detail, compactInputs(j.v))
+			fmt.Fprintf(os.Stderr, "ENGINE FAULT: counterexample candidate for %s (%s) did not reproduce natively: %s inputs=%s symbolic-side message: %s\n", j.v.Expect, j.v.Entry, j.detail, compactInputs(j.v), j.v.Msg)
 		}
 	}
 	// ---- inconclusive accounting
